@@ -362,6 +362,18 @@ def run(ctx, load):
     # List: hash, copy and assign read the count, eq follows the links — the two must not drift apart
     from .rules_c04 import check_list_count
     check_list_count(P, ctx, rule='C10.count-matches-elements')
+    # eq is cmp == 0: equality must be value equality — exact for scalars (no truncated difference), element-wise for containers
+    # (never a comparison of raw storage, whose padding bytes differ between equal values)
+    from .rules_c09 import check_scalar_cmps, check_container_cmps
+    before = len(ctx.obs)
+    check_scalar_cmps(P, ctx)
+    check_container_cmps(P, ctx)
+    for o in ctx.obs[before:]:
+        o['rule'] = 'C10.eq-is-value-equality'
+    for k in list(ctx.floors):
+        if k[0].startswith('C09.'):
+            ctx.floors.pop(k)
+    ctx.floor('C10.eq-is-value-equality', 12)
     # per-type length-exact hashes
     rule = 'C10.length-exact'
     fn = P.fn(P.slot('Type', 'Hash', 'hash'))
